@@ -96,6 +96,8 @@ class Verifier(Executor):
                 n = it.args[0].t
                 n = z3.If(n < 0, 0, n)
                 return st, [(s.target, SSeq("int", n, z3.Lambda([z3.Int("i!e")], z3.Int("i!e"))))], n
+            if it.kind == "reversed" and isinstance(it.args[0], SOpaqueObj):
+                return self.targets_for(s, SOpaqueObj("reversed(" + it.args[0].name + ")"), st)
             if it.kind == "reversed":
                 st, sq = self.iter_seq(it.args[0], st)
                 j = z3.Int("i!r")
